@@ -207,7 +207,8 @@ def vocabulary():
                  "_config_", "END_OF_CONFIG", "!", "0", "1", "10", "255", "256", "65535", "65536", "4294967295",
                  "4294967296", "-1", "1.1.1.1", "10.0.0.0", "0.0.0.255", "255.255.255.0", "0.0.0.0", "255.255.255.255",
                  "10.0.0.0/24", "10.0.0.1/32", "0.0.0.0/0", "10.0.0.0/33", "300.1.1.1", "1.1.1", "1.1.1.1.1", "0.255.0.255",
-                 "85.85.85.85", "www", "bgp", "NAME", "A-1", "?", "/", ".", "-", "a" * 101]
+                 "85.85.85.85", "www", "bgp", "NAME", "A-1", "?", "/", ".", "-", "a" * 101,
+                 "n" * 40, "N0" * 28, "(old)", "\u2013", "\u00e9", "{server_ip}", "${dns}", "{0}", "{", "}", "%s", "%(x)s"]
         _VOCAB = sorted(words | set(extra))
     return _VOCAB
 
@@ -348,6 +349,11 @@ def enum_extremes(tier, shard, nshards):
         "lines": lambda n: "\n".join(["permit ip any any"] * min(n, 2000)),
         "deep-indent": lambda n: "\n".join(" " * i + f"level {i}" for i in range(min(n, deep))),
         "deep-indent-acl": lambda n: "ip access-list extended A\n" + "\n".join(" " * (i + 1) + "permit ip any any" for i in range(min(n, deep))),
+        "long-name-blank": lambda n: "ip access-list extended " + "n" * 60 + " (old)\n permit ip any any",
+        "long-name-dash": lambda n: "ip access-list extended " + "N0" * 30 + "\u2013x\n permit ip any any",
+        "long-group-name": lambda n: "object-group network " + "g" * 70 + " old version\n host 10.0.0.1",
+        "long-group-ref": lambda n: "permit ip object-group " + "G" * 64 + "\u00e9 any",
+        "long-addr-ref": lambda n: "object-group " + "a1" * 40 + " any",
         "config-key": lambda n: "_config_\n permit ip any any\nip access-list extended A\n permit ip any any",
     }
     idx = 0
@@ -398,7 +404,8 @@ def atheris_runner(tier, shard, nshards, seed, deadline, absorb):
     budget = max(5, min(int(os.environ.get("VERIF_ATHERIS_S", default)), int(deadline - time.time()) - 60))
     verif = os.path.dirname(os.path.dirname(os.path.abspath(__file__)))
     cmd = [sys.executable, "-B", os.path.join(verif, "fuzz", "fuzz_text.py"), "--out", out, corpus,
-           f"-seed={seed % 2147483647 or 1}", f"-max_total_time={budget}", "-max_len=512", "-print_final_stats=0"]
+           f"-seed={seed % 2147483647 or 1}", f"-max_total_time={budget}", "-max_len=512", "-print_final_stats=0",
+           "-timeout=150", f"-artifact_prefix={out}/"]
     try:
         subprocess.run(cmd, stdout=subprocess.DEVNULL, stderr=subprocess.DEVNULL, timeout=budget + 120, check=False,
                        env=dict(os.environ, PYTHONHASHSEED="0"))
@@ -410,23 +417,32 @@ def atheris_runner(tier, shard, nshards, seed, deadline, absorb):
     except (OSError, ValueError):
         pass
     nfind = 0
+    hung = None
+    if any(name.startswith("timeout-") for name in os.listdir(out)):
+        # libFuzzer killed the job on one input (its C-level alarm also interrupts code that Python signals cannot)
+        try:
+            hung = json.loads(open(os.path.join(out, "current.json")).read().strip() or "null")
+        except (OSError, ValueError):
+            hung = None
     for name in sorted(os.listdir(out)):
         if name.startswith("finding-"):
             doc = json.load(open(os.path.join(out, name)))
             absorb(doc["case"])  # re-judged in this process: only reproducible findings count
             nfind += 1
     shutil.rmtree(work, ignore_errors=True)
+    if hung is not None:
+        absorb(hung)  # evaluated here under the parent's watchdog: it ends as a hang-watchdog violation if it stalls again
     return {"executions": execs, "labels": {"atheris-executions": execs, "atheris-nontrivial": nontriv,
                                             "atheris-findings-rejudged": nfind,
                                             "corpus-seeded" if seeded else "corpus-empty": 1}}
 
 
 SUBS = [
-    Sub("soup", judge, strategy=soup_st, quick=12000, thorough=200000, shards_thorough=64),
+    Sub("soup", judge, strategy=soup_st, quick=12000, thorough=200000, shards_thorough=64, watchdog=True),
     Sub("atheris", judge, runner=atheris_runner, quick=1, thorough=1, shards_quick=4, shards_thorough=16,
-        minimise=True),
+        minimise=True, watchdog=True),
     Sub("extremes", judge_extreme, enum=enum_extremes, quick=1, thorough=1, shards_quick=16, shards_thorough=32,
-        minimise=False),
+        minimise=False, watchdog=True),
 ]
 BUDGET_QUICK = 400
 BUDGET_THOROUGH = 3000
